@@ -21,6 +21,7 @@ import GoldModel.Drive.ExSpec
     abs    := - | + t t
     commas := (, t t)* .
     stmt   := SA ex t ex | SE ex | SR t ex | SC t | SV t t t ty abs | ST t t t ty | SS t t commas | SK t t t t opt | SI t ex stmts tail
+            | SZ t ex { when* } opt stmts t   (when := W t vals stmts t ; vals := VR t t t | VL t commas)
             | SW t ex stmts t | SL t stmts t | SF t t t ex t ex step stmts t | SX t ex stmts t | SU t stmts t ex
     tail   := TE t | TL t stmts t | TF t ex stmts tail
     step   := - | + t ex
@@ -134,6 +135,15 @@ partial def tokList : P (List Tok)
     let (t, ws) ← tok ws; let (more, ws) ← tokList ws
     pure (t :: more, ws)
 
+def vals : P WhenVals
+  | "VR" :: ws => do
+    let (a, ws) ← tok ws; let (b, ws) ← tok ws; let (c, ws) ← tok ws
+    pure (.range a b c, ws)
+  | "VL" :: ws => do
+    let (f, ws) ← tok ws; let (r, ws) ← commas ws
+    pure (.list f r, ws)
+  | _ => none
+
 def step : P (Option (Tok × Ex))
   | "-" :: ws => some (none, ws)
   | "+" :: ws => do
@@ -180,12 +190,26 @@ partial def stmt : P (Stmt Ex)
     let (k, ws) ← tok ws; let (v, ws) ← tok ws; let (q, ws) ← tok ws; let (lo, ws) ← ex ws
     let (to, ws) ← tok ws; let (hi, ws) ← ex ws; let (st, ws) ← step ws; let (b, ws) ← stmts ws; let (e, ws) ← tok ws
     pure (.forS k v q lo to hi st b e, ws)
+  | "SZ" :: ws => do
+    let (k, ws) ← tok ws; let (e, ws) ← ex ws
+    match ws with
+    | "{" :: ws => do
+      let (wl, ws) ← whenList ws; let (el, ws) ← optTok ws; let (b, ws) ← stmts ws; let (t, ws) ← tok ws
+      pure (.switchS k e wl el b t, ws)
+    | _ => none
   | "SX" :: ws => do
     let (k, ws) ← tok ws; let (c, ws) ← ex ws; let (b, ws) ← stmts ws; let (e, ws) ← tok ws
     pure (.foreachS k c b e, ws)
   | "SU" :: ws => do
     let (k, ws) ← tok ws; let (b, ws) ← stmts ws; let (u, ws) ← tok ws; let (c, ws) ← ex ws
     pure (.repeatS k b u c, ws)
+  | _ => none
+partial def whenList : P (List (WhenB Ex))
+  | "}" :: ws => some ([], ws)
+  | "W" :: ws => do
+    let (k, ws) ← tok ws; let (v, ws) ← vals ws; let (b, ws) ← stmts ws; let (e, ws) ← tok ws
+    let (more, ws) ← whenList ws
+    pure (.mk k v b e :: more, ws)
   | _ => none
 partial def stmtList : P (List (Stmt Ex))
   | "]" :: ws => some ([], ws)
